@@ -8,7 +8,7 @@ them), bitwise/cast operators are never generated.  The oracle is domhist.oracle
 (sampled concrete stores pushed through the same operations), strengthened for
 relational domains: after `q_leq s t` the constraints exported by t are fetched and, when
 the answer was true, checked on the stores of s."""
-import random, re, zlib
+import random, zlib, re, zlib
 import domhist
 
 OPS_C03 = (["assume"] * 4 + ["bounds"] * 3 + ["assign"] * 4 + ["arith"] * 4 +
@@ -26,6 +26,8 @@ OPS = {"C03": OPS_C03, "C04": OPS_C04, "C05": OPS_C05, "C16": OPS_C16}
 
 # minimal histories of the findings made so far (run first on every domain)
 CORPUS = [
+    # powerset inclusion smashed the right operand: {x=5} <= {x=0 or x=10} (domall-12)
+    "hist 3 2 ; assign 0 0 E 0 5 ; assign 1 0 E 0 0 ; assign 2 0 E 0 10 ; join 1 1 2 ; q_leq 0 1 ; q_entails 1 C ne E 1 1 0 -5 ; q_csts 1",
     # split_oct::assign left x unchanged (domall-1)
     "hist 2 4 ; assume 0 1 C le E 1 -1 0 -3 ; arith 0 add 0 2 v 3 ; q_csts 0",
     "hist 2 4 ; assume 1 1 C le E 1 -1 2 -1 ; assign 1 2 E 2 7 0 -4096 1 0",
@@ -100,14 +102,23 @@ def sanitize(line, big=False, drop=()):
 
 
 def with_csts_after_leq(line):
-    """q_leq s t  ->  q_leq s t ; q_csts t   and  join/meet r s t -> ... ; q_csts r"""
+    """q_leq s t  ->  q_leq s t ; q_csts t ; q_entails t c ; q_entails t c'  and  join/meet r s t -> ... ; q_csts r
+    (what the right operand exports or entails must hold on the stores of the left operand when
+    the inclusion is answered true; the entailment queries see non-convex values, e.g. the
+    disjuncts of a powerset, that exported constraints and at() smash)"""
     ops = line.split(" ; ")
+    nv = int(ops[0].split()[2])
+    rng = random.Random(zlib.crc32(line.encode()))
     out = [ops[0]]
     for o in ops[1:]:
         out.append(o)
         t = o.split()
         if t[0] == "q_leq":
             out.append("q_csts " + t[2])
+            for _ in range(2):
+                v = rng.randrange(nv); k = rng.choice([0, 1, -1, 2, 3, 4, 5, 6, -2, -4, 8, 9])
+                kind = rng.choice(["ne", "ne", "le"]); sg = rng.choice([1, -1])
+                out.append("q_entails %s C %s E 1 %d %d %d" % (t[2], kind, sg, v, -sg * k))
         elif t[0] in ("join", "meet"):
             out.append("q_csts " + t[1])
     return " ; ".join(out)
@@ -195,7 +206,15 @@ def box_joins(seed, n):
         else:
             ops.append("q_leq 2 0"); ops.append("q_leq 2 1")
         ops.append("q_csts 2")
-        out.append("hist 3 %d ; %s" % (nv, " ; ".join(ops)))
+        # a third box, usually not inside the result: when the inclusion is answered true, whatever
+        # the result entails (e.g. x != c for a value between two disjuncts) must hold on it
+        c3 = [rng.randint(-3, 3) for _ in range(nv)]
+        for x in range(nv):
+            ops.append("assign 3 %d E 0 %d" % (x, c3[x]))
+        ops.append("q_leq 3 2")
+        for x in range(nv):
+            ops.append("q_entails 2 C ne E 1 1 %d %d" % (x, -c3[x]))
+        out.append("hist 4 %d ; %s" % (nv, " ; ".join(ops)))
     return out
 
 
@@ -509,11 +528,30 @@ def oracle_ext(line, ans, rng=None, checks=("at", "leq", "entails", "csts", "bot
         return None
     new = list(ops)
     changed = []
+    ent = list(ops); ent_changed = []
     for i in range(1, len(ops) - 1):
         t = ops[i].split(); u = ops[i + 1].split()
         if t[0] == "q_leq" and u[0] == "q_csts" and u[1] == t[2] and t[1] != t[2] and answers[i - 1] == "true":
             new[i + 1] = "q_csts " + t[1]
             changed.append(i + 1)
+        if t[0] == "q_leq" and t[1] != t[2] and answers[i - 1] == "true":
+            # queries that directly follow: what the right operand entails holds on the left operand's stores
+            j = i + 1
+            while j < len(ops) and ops[j].split()[0] in ("q_csts", "q_entails", "q_at") and ops[j].split()[1] == t[2]:
+                if ops[j].startswith("q_entails") and answers[j - 1] == "true":
+                    ent[j] = " ".join(["q_entails", t[1]] + ops[j].split()[2:]); ent_changed.append((j, i))
+                j += 1
+    if ent_changed:
+        ans3 = [(a if any(j == i + 1 for j, _ in ent_changed) else ("false" if ops[i + 1].startswith("q_entails") else a)) for i, a in enumerate(answers)]
+        w = domhist.oracle(" ; ".join(ent), " ; ".join(ans3), rng, ("entails",))
+        if w:
+            m = re.match(r"step (\d+) ", w)
+            j = int(m.group(1)) if m else None
+            src = dict(ent_changed).get(j)
+            if src is not None:
+                return ("step %d (%s) of: %s: inclusion answered true but the right operand entails the constraint of step %d (%s) "
+                        "that a store of the left operand violates [%s]" % (src, ops[src], line, j, ops[j], w.split(": ", 2)[-1][:200]))
+            return w
     # all other q_csts answers were checked already: blank them
     ans2 = [(a if (i + 1) in changed or not ops[i + 1].startswith("q_csts") else "{}") for i, a in enumerate(answers)]
     if not changed:
